@@ -258,9 +258,10 @@ class World:
             self.on_main_line()
         self.yield_point()
 
-    def make_tracer(self, filename, opcodes_for=None):
+    def make_tracer(self, filename, opcodes_for=None, skip_func=None):
         """trace function: every line of `filename` is a pre-emption point; opcodes_for(thread) -> True makes
-        every bytecode of that thread's frames in `filename` one as well"""
+        every bytecode of that thread's frames in `filename` one as well; skip_func(filename, function name) ->
+        True leaves that function (a per-byte hot path) untraced"""
         def local(frame, event, arg):
             if event == "line" or event == "opcode":
                 self.line_point(frame.f_lineno)
@@ -272,10 +273,16 @@ class World:
         def tracer(frame, event, arg):
             if event != "call":
                 return None
-            fn = frame.f_code.co_filename
-            hit = cache.get(fn)
+            code = frame.f_code
+            hit = cache.get(code)
             if hit is None:
-                hit = cache[fn] = bool(match(fn))
+                fn = code.co_filename
+                hit = cache.get(fn)
+                if hit is None:
+                    hit = cache[fn] = bool(match(fn))
+                if hit and skip_func is not None and skip_func(fn, code.co_name):
+                    hit = False
+                cache[code] = hit
             if hit:
                 if opcodes_for is not None and opcodes_for(self.current):
                     frame.f_trace_opcodes = True
